@@ -37,7 +37,13 @@ pub struct Case {
 
 const LARGE: usize = 1 << 17;
 pub const CHUNKS: [u32; 4] = [0, 1, 2, u32::MAX];
-pub const ROOMS: [u32; 4] = [0, 1, 3, LARGE as u32];
+pub const ROOMS: [u32; 5] = [0, 1, 3, EXACT, LARGE as u32];
+/// room sentinel: exactly the plaintext bytes still to be delivered (the exact-fit buffer)
+pub const EXACT: u32 = u32::MAX - 1;
+/// pseudo flush indexes: InflateState::reset(format) / reset_as(MinReset); the stream is then
+/// offered again from its first byte and the model starts over
+pub const RESET: u8 = 4;
+pub const RESET_MIN: u8 = 5;
 pub const FLUSHES: [MZFlush; 4] = [MZFlush::None, MZFlush::Sync, MZFlush::Finish, MZFlush::Full];
 
 #[derive(Clone, Copy, Debug, PartialEq, Eq)]
@@ -138,11 +144,22 @@ impl<'a> Model for InfModel<'a> {
             out.push(Act { k: u32::MAX, room: LARGE as u32, flush: 0 });
             return;
         }
+        let exact = self.c.expected.len().saturating_sub(s.delivered);
         for f in 0..4u8 {
             for &k in &CHUNKS {
                 for &room in &ROOMS {
+                    // the exact-fit room only where it is a new value
+                    if room == EXACT && (exact <= 3 && exact != 2 || exact >= LARGE) {
+                        continue;
+                    }
                     out.push(Act { k, room, flush: f });
                 }
+            }
+        }
+        if s.any_real_call {
+            out.push(Act { k: 0, room: 0, flush: RESET });
+            if self.c.kind != Kind::Corrupt {
+                out.push(Act { k: 0, room: 0, flush: RESET_MIN });
             }
         }
     }
@@ -150,9 +167,26 @@ impl<'a> Model for InfModel<'a> {
     fn step(&self, s: &mut St, a: Act, path: &[Act]) -> bool {
         watchdog::pulse();
         let c = self.c;
+        if a.flush == RESET || a.flush == RESET_MIN {
+            // a reset inflater answers like a new one (MinReset keeps the window contents, which a
+            // stream that never reaches before its own start cannot see)
+            self.count("resets");
+            if a.flush == RESET {
+                s.st.reset(c.fmt);
+            } else {
+                s.st.reset_as(miniz_oxide::inflate::stream::MinReset);
+            }
+            let (calls, idle) = (s.calls + 1, s.idle + 1);
+            let st = std::mem::replace(&mut s.st, InflateState::new_boxed(c.fmt));
+            *s = self.init();
+            s.st = st;
+            s.calls = calls;
+            s.idle = idle;
+            return true;
+        }
         let left = c.data.len() - s.ip;
         let k = if a.k == u32::MAX { left } else { (a.k as usize).min(left) };
-        let room = a.room as usize;
+        let room = if a.room == EXACT { c.expected.len().saturating_sub(s.delivered) } else { a.room as usize };
         let flush = flush_of(a.flush);
         let mut buf = vec![0xEEu8; room];
         // the wrapper's own notion: a Full-flush call is rejected before it counts as a call
@@ -281,9 +315,11 @@ impl<'a> Model for InfModel<'a> {
                     s.starved = true;
                 } else {
                     let input_complete = matches!(c.kind, Kind::Valid | Kind::Trailing) && ip0 + k >= c.stream_len;
-                    let room_left = room > r.bytes_written;
-                    if input_complete && room_left {
-                        fail!("finish-buf-with-room", "Finish with the whole stream offered and {} bytes of room left answered Buf", room - r.bytes_written);
+                    // neither side is starved when the whole stream is on offer and the room holds all the
+                    // plaintext still to come (an exact fit included): Buf is not an answer then
+                    let room_enough = room >= c.expected.len() - del0;
+                    if input_complete && room_enough {
+                        fail!("finish-buf-with-room", "Finish with the whole stream offered and room for all {} remaining plaintext bytes ({} bytes of room, {} written) answered Buf", c.expected.len() - del0, room, r.bytes_written);
                     }
                     // aftermath, probed on a clone: sticky Buf (starved under Finish), sticky Data
                     // (first-call Finish is documented to fail regardless), or retryable
@@ -504,7 +540,7 @@ pub fn run(tier: &str) -> i32 {
     rep.set("dedup_depth_completed", json!(if HOOKS { dedup_depth } else { 0 }));
     rep.set("cases", json!({"valid": kinds(Kind::Valid), "truncated": kinds(Kind::Truncated), "corrupt": kinds(Kind::Corrupt), "trailing": kinds(Kind::Trailing)}));
     rep.set("protocol_events", json!(cov));
-    rep.set("explanation", json!("alphabet = chunk {0,1,2,rest} x room {0,1,3,large} x flush {None,Sync,Finish,Full} (64 actions) on the real InflateState (fork = Clone); every action sequence to the full depth without dedup, deeper with complete-state fingerprint dedup; every transition is judged by the protocol model (counts, prefix, Full => Stream error first, sticky Data, non-Finish after Finish, StreamEnd exactness and stability, progress, recoverable starvation, sticky Buf after Finish on a truncated stream); at every cut/terminal state of a valid stream that is still in the legal None-loop regime the usual driver loop is run under 3 constant schedules and must end with the whole plaintext within len(in)+len(out)+8 calls"));
+    rep.set("explanation", json!("alphabet = chunk {0,1,2,rest} x room {0,1,3,exact fit,large} x flush {None,Sync,Finish,Full} (64-80 actions) plus reset(format) / reset_as(MinReset) (the stream is offered again from its first byte and the model starts over) on the real InflateState (fork = Clone); every action sequence to the full depth without dedup, deeper with complete-state fingerprint dedup; every transition is judged by the protocol model (counts, prefix, Full => Stream error first, sticky Data, non-Finish after Finish, StreamEnd exactness and stability, progress, recoverable starvation, sticky Buf after Finish on a truncated stream); at every cut/terminal state of a valid stream that is still in the legal None-loop regime the usual driver loop is run under 3 constant schedules and must end with the whole plaintext within len(in)+len(out)+8 calls"));
     rep.sample(json!({"case": cs[0].desc, "schedule": [[1, 3, "None"], [0, 0, "Finish"], [-1, 131072, "Finish"]], "meaning": "[input bytes offered (-1 = rest), output room, flush] per call"}));
     rep.sample(json!({"case": cs[cs.len() / 2].desc, "fmt": fmt_name(cs[cs.len() / 2].fmt)}));
     let g = |k: &str| cov.get(k).copied().unwrap_or(0);
